@@ -20,7 +20,7 @@ from refmodel import (Ledger, counted_keys, payload_hash, pgp_digest, refcanon, 
 from seams import (InjectedFault, LibCalls, LineTracer, Patcher, SimCrash, SimFS, load_library, exc_site)
 from world_envelope import GpgStub, KeyRing
 
-FORMATS = ["canon", "compact", "indent4", "unsorted", "utf8", "crlf"]
+FORMATS = ["canon", "compact", "indent4", "unsorted", "utf8", "crlf", "bom", "utf16", "utf32", "padded", "tabs", "escaped", "indent8"]
 
 
 def dump_as(doc, fmt):
@@ -40,6 +40,39 @@ def dump_as(doc, fmt):
             return json.dumps(doc, indent=1).encode("ascii")
     if fmt == "crlf":
         return json.dumps(doc, indent=2).replace("\n", "\r\n").encode("ascii") + b"\r\n"
+    try:
+        if fmt == "bom":
+            return json.dumps(doc, ensure_ascii=False, indent=2).encode("utf-8-sig")
+        if fmt == "utf16":
+            return json.dumps(doc, ensure_ascii=False, indent=2).encode("utf-16")
+        if fmt == "utf32":
+            return json.dumps(doc, ensure_ascii=False).encode("utf-32")
+    except UnicodeEncodeError:
+        return json.dumps(doc, indent=2).encode("utf-16" if fmt == "utf16" else "utf-8")
+    if fmt == "padded":
+        return b"\n\n  " + json.dumps(doc, indent=2, sort_keys=True).encode("ascii") + b"  \n\n\t\n"
+    if fmt == "tabs":
+        return json.dumps(doc, indent="\t").encode("ascii")
+    if fmt == "indent8":
+        return json.dumps(doc, indent=8).encode("ascii")
+    if fmt == "escaped":
+        # every character of every string written as a \\uXXXX escape (member names too)
+        txt = json.dumps(doc, indent=1)
+        out, i, instr = [], 0, False
+        while i < len(txt):
+            c = txt[i]
+            if c == '"':
+                instr = not instr
+                out.append(c)
+            elif instr and c == "\\":
+                out.append(txt[i:i + 2] if txt[i + 1] != "u" else txt[i:i + 6])
+                i += 1 if txt[i + 1] != "u" else 5
+            elif instr:
+                out.append("\\u%04x" % ord(c))
+            else:
+                out.append(c)
+            i += 1
+        return "".join(out).encode("ascii")
     return refcanon(doc)
 
 
@@ -54,8 +87,13 @@ def gen_record(rng, i, nonfinite):
         if rng.random() < 0.15:
             rec["type"] = rng.choice(["app", "pkg_mgr", "root", "key_mgr", 5, None])     # conda's old app packages carried "type": "app"
         return rec
-    if r < 0.9:
+    if r < 0.85:
         return gen.gen_json(rng, 3, None, nonfinite)
+    if r < 0.93:
+        # a record that is itself shaped like a signed envelope (an index of signed documents; a tool that stores its own signatures)
+        inner = gen.gen_json(rng, 2, None, nonfinite)
+        sigs = rng.choice([{}, {"%064x" % rng.getrandbits(256): {"signature": "%0128x" % rng.getrandbits(512)}}, {"k": 1}])
+        return {"signatures": sigs, "signed": inner}
     # a record that itself looks like delegating metadata of another type
     return {"type": rng.choice(["root", "key_mgr"]), "version": 1, "metadata_spec_version": "0.6.0",
             "timestamp": "2021-01-01T00:00:00Z", "expiration": "2031-01-01T00:00:00Z", "delegations": {}}
@@ -155,6 +193,12 @@ class StorageWorld(StorageBase):
         }
         if prop == "C11" and rng.random() < 0.2:
             h["focus"] = "metadata"
+        if rng.random() < 0.3:
+            # file names as archives, other platforms and people produce them: decomposed / compatibility characters, case, blanks, dots
+            odd = ["cafe\u0301", "\u212b", "\uff46ile", "A", "a b", "a.", ".a", "a..b", "\u00e9", "e\u0301", "\u1e9b\u0323", "x\u200b", "\U0001f600", "-a", "a;b", "%41", "a~1"]
+            n1, n2 = rng.sample(odd, 2)
+            h["files"] = ["md/%s.json" % n1, "md/%s.json" % n2]
+            h["rfiles"] = ["repo/%s/repodata.json" % n1, "repo/%s.json" % n2]
         if tier == "thorough" and rng.random() < 0.25:
             h["n_ops"] = rng.randint(28, 90)
         return h
@@ -606,6 +650,39 @@ class StorageWorld(StorageBase):
             self.run.violate(("C08",), "verdict-after-reload", "verification verdicts differ between the in-memory envelope and its reloaded file",
                              "verdict-after-reload")
 
+    def op_reformat(self, op):
+        """Another tool (an editor, a mirror, a transfer that re-encodes) rewrote the stored file: same JSON value, other bytes
+        (BOM, UTF-16/32, CRLF, tabs, escapes, padding).  Loading gives the same value and every verdict is unchanged: a validly
+        signed envelope stays accepted (C02), an insufficiently signed one stays rejected (C01)."""
+        path = op["file"]
+        E = self.model.get(path)
+        if E is None or path in self.dirty:
+            return self.run.ev("noop")
+        try:
+            b = dump_as(E, op["fmt"])
+            if json.loads(b) != E:
+                return self.run.ev("noop")
+        except (ValueError, TypeError, UnicodeError, RecursionError):
+            return self.run.ev("noop")
+        self.fs.put(path, b)
+        self.run.fault("file_rewritten_as_" + op["fmt"])
+        lo = self.calls.raw("load_metadata_from_file", path)
+        signed_ok = isinstance(E, dict) and set(E) == {"signatures", "signed"} and isinstance(E["signatures"], dict)
+        if not lo.ok:
+            self.run.violate(("C08", "C02") if signed_ok and E["signatures"] else ("C08",), "load-failed",
+                             "load_metadata_from_file raised %r for a well-formed JSON file (%s spelling of a document the library wrote)" % (lo, op["fmt"]),
+                             "load-failed:" + lo.cls)
+            return
+        if not typed_eq(lo.value, E):
+            self.run.violate(("C08",), "load-differs", "the %s spelling of the stored document loads to another value" % op["fmt"], "load-differs")
+            return
+        if signed_ok:
+            va, vb = self._verdicts(E), self._verdicts(lo.value)
+            if va != vb or va != self._model_verdicts(E):
+                self.run.violate(("C08", "C02", "C01"), "verdict-after-reload", "verification verdicts differ between the in-memory envelope and its "
+                                 "reformatted file (%s)" % op["fmt"], "verdict-after-reload")
+        self.fs.put(path, refcanon(E))        # the tool's spelling is replaced by the library's own again (other ops assume files the library wrote)
+
     def op_corrupt(self, op):
         """Storage fault: one stored bit flips.  The loaded value then either fails to parse or is judged on its own
         merits by the ledger model - a flipped byte can never mint a valid signature."""
@@ -666,6 +743,22 @@ class StorageWorld(StorageBase):
 
     def op_repodata(self, op):
         path = op["file"]
+        if op.get("pad_to") and isinstance(op["doc"], dict) and isinstance(op["doc"].get("packages"), dict) \
+                and isinstance(op["doc"].get("packages.conda", {}), dict):
+            # an index whose *signed* form is exactly a multiple of a block size (4 KiB ... 8 MiB): the op carries only the block size
+            doc = copy.deepcopy(op["doc"])
+            doc["info"] = {"subdir": "noarch", "pad": ""}
+            shaped = copy.deepcopy(doc)
+            shaped["signatures"] = {nm: {"0" * 64: {"signature": "0" * 128}} for nm in self._artifacts(doc)}
+            try:
+                L0 = len(refcanon(shaped))
+            except (TypeError, ValueError, AssertionError):
+                L0 = None
+            if L0 is not None:
+                B = op["pad_to"]
+                doc["info"]["pad"] = "x" * ((-L0) % B + B * op.get("blocks", 0))
+                op = dict(op, doc=doc)
+                self.run.probe("index_padded_to_block_multiple")
         self.fs.put(path, dump_as(op["doc"], op.get("fmt", "canon")))
         self.repo_state[path] = {"orig": copy.deepcopy(op["doc"]), "signer": None}
         self.model.pop(path, None)
@@ -872,8 +965,8 @@ class StorageWorld(StorageBase):
         h = self.h
         nk = len(self.keys)
         nonf = h.get("nonfinite", True)
-        files = ["md/a.json", "md/b.json"]
-        rfiles = ["repo/repodata.json", "repo/noarch.json"]
+        files = h.get("files") or ["md/a.json", "md/b.json"]
+        rfiles = h.get("rfiles") or ["repo/repodata.json", "repo/noarch.json"]
         fault = None
         if h.get("faults") and rng.random() < 0.3:
             fault = {"at": rng.randint(1, 4), "kind": rng.choice(["EIO", "ENOSPC", "EACCES", "EMFILE", "CRASH", "CRASH", "SHORT", "PARTIAL", "PARTIAL"]),
@@ -882,7 +975,13 @@ class StorageWorld(StorageBase):
             r = rng.random()
             f = rng.choice(rfiles)
             if f not in self.repo_state or r < 0.12:
-                return {"op": "repodata", "file": f, "doc": gen_repodata(rng, nonf), "fmt": rng.choice(FORMATS)}
+                op = {"op": "repodata", "file": f, "doc": gen_repodata(rng, nonf), "fmt": rng.choice(FORMATS)}
+                if rng.random() < 0.025:
+                    op["pad_to"] = rng.choice([512, 4096, 4096, 8192, 65536, 65536, 1 << 20, 1 << 22, 1 << 22])
+                    op["blocks"] = rng.choice([0, 0, 1]) if op["pad_to"] < (1 << 22) else 0
+                    op["fmt"] = "canon"
+                    op["doc"].pop("signatures", None)
+                return op
             if r < 0.62:
                 op = {"op": "sign_repo", "file": f, "key": rng.randrange(nk), "via": rng.choice(["lib", "lib", "cli"]),
                       "again": rng.random() < 0.5, "swap": rng.randint(0, 5), "sample": rng.randint(0, 5),
@@ -902,6 +1001,8 @@ class StorageWorld(StorageBase):
                     "fmt": rng.choice(FORMATS)}
         r = rng.random()
         f = rng.choice(files)
+        if f in self.model and rng.random() < 0.06:
+            return {"op": "reformat", "file": f, "fmt": rng.choice(FORMATS[1:])}
         if f not in self.model or r < 0.1:
             if rng.random() < 0.75:
                 return {"op": "new_envelope", "file": f, "payload": gen.gen_payload(rng, nonf)}
